@@ -91,6 +91,17 @@ Theorem meta_silent :
   f_meta f = true -> diagnose_file tr cfg f ks = Some ds -> ds = [].
 Proof. exact Proofs.meta_silent. Qed.
 
+(** ... and a file of a workspace IS a meta file whatever the spelling of its tag — bare, [_], [no-require], or a
+    module name (for which [analyze_doc_tag_meta] re-registers the module and must mark it again) *)
+Theorem meta_tag_sets_flag : forall (tag : meta_tag), tag <> NoMetaTag -> meta_flag_of_tag true tag = true.
+Proof. exact Proofs.meta_tag_sets_flag. Qed.
+
+Theorem meta_tag_silent :
+  forall (tr : range -> lsp_range) (cfg : config) (f : file) (ks : list checker) (ds : list diag) (tag : meta_tag),
+  tag <> NoMetaTag -> f_meta f = meta_flag_of_tag true tag ->
+  diagnose_file tr cfg f ks = Some ds -> ds = [].
+Proof. exact Proofs.meta_tag_silent. Qed.
+
 (** "diagnostics.enable = false reports nothing at all" *)
 Theorem enable_false_silent :
   forall (tr : range -> lsp_range) (cfg : config) (f : file) (ks : list checker),
